@@ -56,14 +56,23 @@ class Env:
         if repo_override and os.path.realpath(repo_override) != "/repo":
             # scratch copy of the harness whose path dependency points at the given tree
             self.repo = repo_override
-            self.scratch = tempfile.mkdtemp(prefix="hsv-scratch-")
+            fixed = os.environ.get("HSV_SCRATCH_DIR")
+            self.keep = bool(fixed)
+            if fixed:
+                # reusable scratch (keeps the build between invocations); sources refreshed
+                self.scratch = fixed
+                os.makedirs(fixed, exist_ok=True)
+                for sub in ("harness/src", "fuzz/fuzz_targets"):
+                    shutil.rmtree(os.path.join(fixed, sub), ignore_errors=True)
+            else:
+                self.scratch = tempfile.mkdtemp(prefix="hsv-scratch-")
             h2 = os.path.join(self.scratch, "harness")
-            shutil.copytree(harness, h2, ignore=shutil.ignore_patterns("target*"))
+            shutil.copytree(harness, h2, ignore=shutil.ignore_patterns("target*"), dirs_exist_ok=True)
             ct = open(os.path.join(h2, "Cargo.toml")).read().replace('path = "/repo"', 'path = "%s"' % repo_override)
             open(os.path.join(h2, "Cargo.toml"), "w").write(ct)
             f2 = os.path.join(self.scratch, "fuzz")
             if os.path.isdir(os.path.join(verif, "fuzz")):
-                shutil.copytree(os.path.join(verif, "fuzz"), f2, ignore=shutil.ignore_patterns("target", "corpus", "artifacts"))
+                shutil.copytree(os.path.join(verif, "fuzz"), f2, ignore=shutil.ignore_patterns("target", "corpus", "artifacts"), dirs_exist_ok=True)
                 ct = open(os.path.join(f2, "Cargo.toml")).read().replace('path = "/repo"', 'path = "%s"' % repo_override)
                 open(os.path.join(f2, "Cargo.toml"), "w").write(ct)
             self.harness = h2
@@ -73,7 +82,7 @@ class Env:
         self.built = {}
 
     def cleanup(self):
-        if self.scratch and not os.environ.get("HSV_KEEP_SCRATCH"):
+        if self.scratch and not os.environ.get("HSV_KEEP_SCRATCH") and not getattr(self, "keep", False):
             shutil.rmtree(self.scratch, ignore_errors=True)
 
 
